@@ -32,7 +32,9 @@ def loop_cases():
             for rung in ("heat_consumer", "fc_hex", "hex"):
                 for load in (None, "sink", "source"):
                     for oos in (None, 0):
-                        out.append({"scope": "L", "k": k, "pump": pump, "rung": rung, "load": load, "oos": oos})
+                        for eg in (None, "flow", "return", "mid"):
+                            out.append({"scope": "L", "k": k, "pump": pump, "rung": rung, "load": load, "oos": oos,
+                                        "eg": eg})
     return out
 
 
@@ -69,6 +71,9 @@ def loop_spec(c):
                         "qext_w": 15000.0, "zeta": 50.0 * i, "in_service": ins})
     if c["load"]:
         ops.append({"op": c["load"], "id": "ld", "junction": "s%d" % k, "mdot": 0.05})
+    if c.get("eg"):
+        ops.append({"op": "ext_grid", "id": "eg", "junction": {"flow": "s0", "return": "r0", "mid": "r%d" % k}[c["eg"]],
+                    "p_bar": 5.0 if c["eg"] == "flow" else 4.0, "t_k": 350.0, "type": "p"})
     return {"fluid": "water", "ops": ops}, {}
 
 
